@@ -101,7 +101,12 @@ func (t *Directive) Validate(root *Root) (errs []error) {
 	}
 	for _, a := range t.args.list {
 		errs = append(errs, validateName(a.core, "argument", a.N, a.line, a.col)...)
-		if co, _ := a.Type.(InCoercer); co != nil {
+		if !IsInputType(a.Type) {
+			// A list or non-null of an output type can coerce but is not an
+			// input type.
+			errs = append(errs, fmt.Errorf("%w, directive %s argument %s, a %T is not an input type at %d:%d",
+				ErrValidation, t.Name(), a.Name(), a.Type, a.line, a.col))
+		} else if co, _ := a.Type.(InCoercer); co != nil {
 			if a.Default != nil {
 				if v, err := co.CoerceIn(a.Default); err != nil {
 					errs = append(errs, fmt.Errorf("%w at %d:%d", err, a.line, a.col))
